@@ -770,7 +770,7 @@ var boundsText = map[string][2]string{
 	"C01": {"box body lengths selected per type from calib/box_lengths.json (first success lengths, progressions of count-driven boxes, 0,4,..,24), <= 128 bytes, 32- and 64-bit headers, both decoders; 9 skeleton files with every third leaf symbolic", "every body length 0..96 (64-bit header 0..40), every leaf of every skeleton file"},
 	"C02": {"as C01 (32-bit header, slice reader); 9 skeleton files", "every body length 0..96"},
 	"C03": {"as C01 (both decoders and encoders compared); 9 skeleton files", "every body length 0..96"},
-	"C04": {"exact header: calibration-selected lengths <= 64 (heavy types <= 16 and first two success lengths); symbolic size field / largesize at body lengths 8 and 16; budgets 100000+4000*N steps, 1 MiB+64*N bytes", "exact header: every length 0..48; symbolic size at 0,4,8,12,16,24,32; Info at all levels"},
+	"C04": {"exact header: calibration-selected lengths <= 64 (heavy types <= 16 and first two success lengths); symbolic size field / largesize at body lengths 8 and 16; 9 skeleton files x every fifth (leaf, decode mode) pair with the leaf symbolic; budgets 100000+4000*N steps, 1 MiB+64*N bytes", "exact header: every length 0..48; symbolic size at 0,4,8,12,16,24,32; Info at all levels; every leaf x decode mode of every skeleton file"},
 	"C05": {"14 addition patterns (<= 3 additions, <= 2 tracks), trun optimisation on/off, two encoder/decoder pairings, extra boxes on every third pattern; payload <= 3 bytes per sample", "23 patterns (<= 4 additions, <= 3 tracks), all four encoder/decoder pairings"},
 	"C06": {"AVC NAL size lists {1,15,16,107,108,109,123;124,200+5,130;16+3} x IV 8/16, AAC sizes {0,1,15,16,17,40,32;33} x cenc/cbcs, one instance with uuid+unknown boxes, 6 instances with init and media decoded separately (<= 2 samples); key/IV/metadata symbolic", "adds NAL sizes 112,113,128,255+20;300,16;16;16 and audio 2,31,48,5;5;5"},
 	"C07": {"the C06 instances (assertions on the encrypted form) and GetAVCProtectRanges for every NAL size 1..40 and around 112 / 65535", "as quick with the thorough C06 sizes"},
@@ -781,7 +781,7 @@ var boundsText = map[string][2]string{
 	"C12": {"11 segment layouts over S,f,N,D,E,M x decode flags x both decoders; UpdateSidx for all (add, nonZeroEPT)", "17 layouts"},
 	"C13": {"write/read sequences of <= 4 symbolic-width values, Exp-Golomb at all alignments, all byte strings <= 6 through the EBSP writer/reader, one inductive writer step", "byte strings <= 8"},
 	"C14": {"scanner: two units, start codes 3/4, lengths 1..9 x {1,2,5,9}; conversions and walkers: 6 layouts of <= 3 units (AVC) and 6 (HEVC); symbolic bytes under the no-emulation assumption", "same instance set (already exhaustive for the shapes), longer time caps"},
-	"C15": {"AVC: 22 SPS structures x code-length classes {0,1,3,8}; 9 SPS structures x {more,idr} x classes {0,1,1001,3,1008} for PPS + I slice; 5 config instances. HEVC: 52 SPS (variant,shape) pairs x classes {0,1,3,8}; 59 (SPS,PPS,slice) structures x classes {0,1,1001,3,1008}; 5 hvcC/codec string instances. Info bits of every ue/se element and all fixed-width fields symbolic", "all 64 AVC SPS structures x classes 0..8 + sweeps; 91 HEVC SPS pairs x 11 classes; 179 HEVC slice structures x 13 classes"},
+	"C15": {"AVC: 22 SPS structures x code-length classes {0,1,3,8}; 9 SPS structures x {more,idr} x classes {0,1,1001,3,1008} for PPS + I slice; 5 config instances; 7 extended SPS shapes (scaling matrix, full VUI, HRD) and 4 PPS scaling-matrix shapes x classes {0,1,1001,3}. HEVC: 52 SPS (variant,shape) pairs x classes {0,1,3,8}; 59 (SPS,PPS,slice) structures x classes {0,1,1001,3,1008}; 5 hvcC/codec string instances. Info bits of every ue/se element and all fixed-width fields symbolic", "all 64 AVC SPS structures x classes 0..8 + sweeps; 91 HEVC SPS pairs x 11 classes; 179 HEVC slice structures x 13 classes"},
 	"C16": {"every entry point x every input length 0..10 (walkers) / 0..6 (bit-level parsers) / 0..8 (SEI) / hvcC 0..28, fully symbolic bytes; budgets 50000+4000*N steps, 64 KiB+64*N bytes", "lengths 0..14 / 0..10 / 0..12 / hvcC 0..34"},
 	"C17": {"message lists with payloads 0..3 (+0..1) symbolic bytes, sizes 254..511, time code 0..2 clocks, AVC pic timing 7 shapes, fixed messages, 5 pass-through kinds", "payloads 0..5 (+0..3), 0..3 clocks, all pic timing shapes"},
 	"C18": {"ASC for object types 2,5,29 (symbolic frequencies / channel configuration), ADTS with 0..4 junk bytes", "0..8 junk bytes"},
